@@ -53,14 +53,17 @@ func classify(v *report.Violation) {
 		}
 		// consequences of an earlier take-over of a line's lease by a second MAC (the first MAC's
 		// entry had expired but was still in the table, so the duplicate was not an O2 at that
-		// moment): both entries exist, releasing/expiring one frees the address under the other
-		if (v.Kind == "O1-ack-leased-to-other" || v.Kind == "O2-two-bindings") && lineTakenOver(v.Trace) {
+		// moment): both entries exist, releasing/expiring one frees the address under the other.
+		// The monitor marks the witness: the take-over ACK was served from ANOTHER MAC's lease-table
+		// entry that carried the request's own circuit-id (not from a stale index entry).
+		if (v.Kind == "O1-ack-leased-to-other" || v.Kind == "O2-two-bindings") && strings.Contains(v.Detail, "{line take-over earlier: ") {
 			v.Class = classV4Circuit
 		}
 		// a client whose circuit-id changed (second relayed REQUEST with another circuit-id) leaves
 		// its old circuit-id index entry behind, pointing at a lease object that is no longer in the
-		// table; a later relayed DISCOVER on the old circuit-id is offered that dead lease's address
-		if (v.Kind == "O1-ack-offered-to-other" || v.Kind == "O5-declined-reoffered" || v.Kind == "O1-ack-leased-to-other" || v.Kind == "O2-two-bindings") && staleCircuitUsed(v.Trace) {
+		// table; a later relayed DISCOVER on the old circuit-id is OFFERed that dead lease's address
+		// (the REQUEST that follows is NAKed: only the offer / the declined address is the problem)
+		if (v.Kind == "O1-ack-offered-to-other" || v.Kind == "O5-declined-reoffered") && staleCircuitUsed(v.Trace) {
 			v.Class = classV4CircuitStale
 		}
 	case strings.HasPrefix(v.Part, "dhcpv6"):
@@ -88,23 +91,7 @@ func digest(dump string) string {
 	return hex.EncodeToString(h[:16])
 }
 
-var reRelReq = regexp.MustCompile(`^(\S+):rREQ-sel/(\S+)$`)
-
-// lineTakenOver: two DIFFERENT clients were acknowledged (relayed REQUEST) on the same circuit-id.
-func lineTakenOver(trace []string) bool {
-	first := map[string]string{} // circuit -> first client
-	for _, t := range trace {
-		if m := reRelReq.FindStringSubmatch(t); m != nil {
-			if c, ok := first[m[2]]; ok && c != m[1] {
-				return true
-			}
-			if _, ok := first[m[2]]; !ok {
-				first[m[2]] = m[1]
-			}
-		}
-	}
-	return false
-}
+var reRelReq = regexp.MustCompile(`^(\S+):rREQ-(?:sel|renew|other)/(\S+)$`)
 
 // staleCircuitUsed: one client sent relayed REQUESTs with two different circuit-ids and a relayed
 // DISCOVER on the FIRST of them follows.
